@@ -152,9 +152,9 @@ func (e *Encoder) writeObject(data interface{}) (int, error) {
 			return 0, err
 		}
 	}
-	if byte(length) <= _objectTagMaxLen {
-		// NOTE: when length=2, length+_objectLenTagMin='b', the same as the binary chunk start with,
-		// which will be special processed in decoder
+	if length <= int(_objectTagMaxLen) {
+		// the compact instance tags x60-x6f cover class definitions #0..#15 only
+		// (the index is compared in full: #256 is not #0)
 		_, err = e.writeBT(byte(length) + _objectLenTagMin)
 	} else {
 		if _, err = e.writeBT(_objectTag); err == nil {
